@@ -167,6 +167,10 @@ func runC17(c *core.Ctx) core.Meta {
 		stp := c.Rule("R17.12", "the component keeps ticking while any of its steps made progress: where a function with a bool result collects its answer in a loop (over requests per cycle, banks, ports), the value carried around the loop is derived from itself on the back edge (p = step() || p). A plain assignment keeps only the last iteration's answer; the component reports no progress and is not ticked again although an earlier iteration left work to continue", 1)
 		checkProgressAccumulated(c, stp, "R17.12", p, "The component stops ticking with work pending; requests already accepted are never completed")
 	}
+	{
+		stp := c.Rule("R17.13", "a step that did something counts as progress: in every function with a bool result, the result of each call to a step of the package that can consume or send a message flows into the returned value, as data or through the short circuit p = step() || p. A step whose result only steers a loop (if !step() { break }) can take a message off a port while the tick reports no progress; the component is not ticked again and the messages behind it are never read", 1)
+		checkStepResultsCount(c, stp, "R17.13", p, "a response that was attached or a request that was forwarded in this tick does not keep the component ticking; with more input queued than one tick handles it goes to sleep and nothing wakes it (a port notifies only when a message arrives at an empty buffer)")
+	}
 	// R17.11 a delayed request expires even when the pipeline is busy at the cycle of expiry
 	st11 := c.Rule("R17.11", "the row-miss delay of a request ends: a countdown that the component decrements on every tick whatever its value (delayedItem.cyclesLeft) is tested for expiry with an ordering comparison, not with == 0 - the item that finds the bank's pipeline busy in the cycle its counter reaches 0 is kept, goes to -1 and would never be released; the request gets no response and every later request of the bank waits behind it", 1)
 	checkCountdownExpiry(c, st11, "R17.11", p, "the request never enters the bank's pipeline, is never answered, and every later request of that bank queues behind it")
